@@ -455,6 +455,8 @@ def rule_opposite_predicate(ctx: Ctx, rule: str = "opposite-terms") -> None:
             ("partner has an extra variable", a, term({x: -sym("a"), y: sym("b")}, sym("d")), False),
             ("head has an extra variable", term({x: sym("a"), y: sym("b")}, sym("c")), term({x: -sym("a")}, sym("d")), False),
             ("different variables", a, term({y: -sym("a")}, sym("d")), False),
+            ("same variables listed in another order, truly opposite", term({x: sym("a"), y: sym("b")}, sym("c")), term({y: -sym("b"), x: -sym("a")}, sym("d")), True),
+            ("same variables, coefficients negated crosswise", term({x: sym("a"), y: sym("b")}, sym("c")), term({y: -sym("a"), x: -sym("b")}, sym("d")), False),
         ]
         for label, t1, t2, want in cases:
             got = TermAlg(prog, stubs).call(fi, [t1, t2], {})
@@ -543,7 +545,7 @@ def rule_printer_reading(ctx: Ctx, rule: str = "printer-meaning") -> None:
     from .termalg import DictV, Key, ListV, Rec, TermAlg, TupV, num
 
     prog = ctx.prog
-    keys = {n: Key(n) for n in ("w", "x", "y", "z")}
+    keys = {n: Key(n) for n in ("w", "x", "y", "z", "e1", "e2", "E3x")}
 
     def approx(ta, pos, kw):
         a, b = pos[0], pos[1]
@@ -570,6 +572,7 @@ def rule_printer_reading(ctx: Ctx, rule: str = "printer-meaning") -> None:
     cases = [
         ("single term, mixed signs and unit coefficients", [({"x": 2, "y": -3, "z": 1, "w": -1}, 4)], ("le", 0)),
         ("leading negative non-unit coefficient", [({"x": -2.5, "y": 1}, -7)], ("le", 0)),
+        ("variable names that look like exponents (e1, e2, E3x)", [({"e1": 1, "e2": 2, "E3x": -4}, 4)], ("le", 0)),
         ("rounding to four significant digits", [({"x": 1.23456, "y": -0.000123456}, 1234.56)], ("le", 0)),
         ("opposite pair, equal constants -> |LHS| <= c", [({"x": 2, "y": -1}, 3), ({"x": -2, "y": 1}, 3)], ("abs", 3)),
         ("opposite pair, opposite constants -> LHS = c", [({"x": 2, "y": -1}, 3), ({"x": -2, "y": 1}, -3)], ("eq", 3)),
